@@ -1,6 +1,6 @@
 SPECIFICATION Spec
 CONSTANTS
-  EffTokens = {"pa", "st", "im", "cb", "dm"}
+  EffTokens = {"pa", "st", "im", "cb", "dm", "rso"}
   MaxEff = 1
   Modes = {"normal", "exc", "sysexit", "baseKbd", "recursion", "syntax"}
   FnModes = {"normal", "exc", "baseCustom"}
